@@ -506,9 +506,12 @@ class C07(BbProp):
             return out
         if not permitted:
             if not raised:
+                # stale_ns: the name is still in the client's namespace cache although no registered key lies below it any
+                # more (what an unregister_key that raised half-way leaves behind, known finding K5)
                 out.append(viol("denied-op-did-not-raise", "client %d has %s access to %s but `%s` returned %s"
                                 % (c, "no write" if need_write else "no", a, o.op, o.R), op=op,
-                                registered=can_read(cl, a)))
+                                registered=can_read(cl, a), alias=bool(hist["alias"]),
+                                stale_ns=bool(a in cl.get("n", ()) and not is_ns and o.R.startswith("fetcher"))))
             elif op != "unset" and o.R != "AttributeError":
                 out.append(viol("denied-op-wrong-exception", "`%s` raised %s instead of AttributeError" % (o.op, o.R),
                                 op=op))
